@@ -1256,6 +1256,8 @@ var c01FixedCorpus = []string{
 	"x=\"\\\n\"?1:2", "x=!\"\\\n\"", "if(a in b){}", "x=void(a in b)", "function t(p){if((p||'')instanceof q){}}x=t(a)",
 	"function t(p1){class C{static{let e=f(1);k(e,p1)}}}t(5)", "for(var i of[1]){const[]=[]}", "for(var i of[1]){function t(){}}f(typeof t)", "if(a){f(1)}else{async function t(){}}",
 	"let x=2;if(a){throw 1}else{let x=3;h(x)}h(x)", "if(a)throw 1;else{let l=1}", "function t(){let x=2;if(a){return 1}else{let x=3;h(x)}h(x)}t()",
+	"a=null;x=(a?.b)[c];f(x)", "a=o1;x=(a==null?undefined:a.b)();f(x)", "a=null;x=(a==null?undefined:a.b).c;f(x)", "(a==null?undefined:a.b).c=1", "{class C{static s=f(1)}}", "{let z=class{static s=f(1)}}", "{class C extends f(1){}}",
+	"function t(){var {a}=o1;let z=1;var {n:[]}=o2}t()",
 	"false%(10<(1000?!12000:a))", "x=a<(1?!5:b);f(x)", "x=a<<(0?b:!\"s\")+1;f(x)",
 	"x=a===null||a===undefined", "x=a==null?b:a", "x=a?true:false", "x=!a?b:c", "x=a?a:b", "x=(f(1),a)?a:g(2)",
 }
